@@ -746,3 +746,69 @@ def r15_10(run):
 
 
 RULES.append(("R15.10", r15_10))
+
+EXPLANATION += (' ' + '(R15.11) what the solver itself stores in net.user_pf_options (set_user_pf_options calls and direct stores in pipeflow.py, pf/, '
+                'component_models/, timeseries/, multinet/) is a Python literal or an explicit bool()/int()/float()/str() conversion: the '
+                'dictionary is saved as plain JSON, where a numpy scalar (net.converged is a numpy bool) is written as text and comes back as '
+                'another value.')
+
+_UPO_SCOPE = ("pandapipes.pipeflow", "pandapipes.pf.", "pandapipes.component_models.", "pandapipes.timeseries.", "pandapipes.multinet.",
+              "pandapipes.control.")
+
+
+def r15_11(run):
+    """user_pf_options is a plain dict and is written to JSON as such: pandapower's encoder keeps Python bool / int / float / str exactly,
+    but a numpy bool is written as the string "false" and read back as numpy.bool("false") == True.  The package writes one entry of
+    this dictionary itself (hyd_flag, the "hydraulics have converged" marker that gates heat-only runs): every value the solver side
+    stores there must be JSON-native by construction -- a literal, or an explicit bool()/int()/float()/str() conversion."""
+    ix = run.index
+    n = 0
+
+    def native(e, fi):
+        if isinstance(e, ast.Constant):
+            return True
+        if isinstance(e, ast.Call) and isinstance(e.func, ast.Name) and e.func.id in ("bool", "int", "float", "str") and len(e.args) == 1:
+            return True
+        if isinstance(e, ast.UnaryOp) and isinstance(e.op, (ast.USub, ast.Not)):
+            return native(e.operand, fi) if isinstance(e.op, ast.USub) else True
+        if isinstance(e, ast.Compare) and all(isinstance(o, (ast.Is, ast.IsNot, ast.In, ast.NotIn)) for o in e.ops):
+            return True  # identity / membership tests give a Python bool
+        if isinstance(e, ast.Name):
+            defs = [a for a in assignments(fi.node) if any(isinstance(t, ast.Name) and t.id == e.id for t in a.targets)] \
+                if hasattr(fi, "node") else []
+            return bool(defs) and all(native(a.value, fi) for a in defs)
+        if isinstance(e, (ast.Tuple, ast.List)):
+            return all(native(x, fi) for x in e.elts)
+        return False
+
+    for fi in ix.all_functions():
+        if not any(fi.module == s or fi.module.startswith(s) for s in _UPO_SCOPE) or ".test." in fi.module:
+            continue
+        if fi.short == "set_user_pf_options":
+            continue
+        for c in calls(fi.raw_node):
+            if callee_name(c) == "set_user_pf_options":
+                for kw in c.keywords:
+                    if kw.arg is None:
+                        # **mapping handed on: where it comes from is the caller's business (the public entry point)
+                        continue
+                    if kw.arg == "reset":
+                        continue
+                    n += 1
+                    run.ob("%s|set_user_pf_options(%s=%s)|json-native" % (fi.short, kw.arg, U(kw.value)[:40]), native(kw.value, fi),
+                           "a value the solver stores in user_pf_options is a literal or an explicit bool/int/float/str conversion "
+                           "(a numpy scalar does not survive the JSON round trip)", run.where(fi, c))
+        for st in own_walk(fi.raw_node):
+            if isinstance(st, ast.Assign):
+                for t in st.targets:
+                    if isinstance(t, ast.Subscript) and "user_pf_options" in U(t.value) and not U(t.value).startswith("kwargs"):
+                        n += 1
+                        run.ob("%s|%s=%s|json-native" % (fi.short, U(t)[:50], U(st.value)[:40]), native(st.value, fi),
+                               "a value the solver stores in user_pf_options is a literal or an explicit conversion", run.where(fi, st))
+    run.stat("solver_side_stores_into_user_pf_options", n)
+    if n < 2:
+        raise AnalysisError("the solver's own stores into user_pf_options (hyd_flag) were not found (%d sites)" % n)
+    run.floor(2)
+
+
+RULES.append(("R15.11", r15_11))
